@@ -12,6 +12,9 @@ CHECKS = {
   "C15": ("exhaustive enumeration of bounded histories + Hypothesis histories vs reference model (mkd_model), state compared through the public API after every step",
           "All histories up to length 4 (quick) / 5 (thorough) over 27 operations are enumerated against an ordered-groups model; longer random histories over hash-equal key/value spellings and a StrategyDict machine (items == attributes, default selection) add depth. Exhaustive within the bound, sampled beyond.",
           "Model written from the property text; keys/values compared with ==; StrategyDict default never assigned manually.", "3/C15"),
+  "C07": ("Hypothesis vs independent dict-of-Fractions polynomial arithmetic, plus ring-law, homomorphism, round-trip (integrate/diff) and interpolation oracles, all exact",
+          "Generated Laurent polynomials with exact rational coefficients through four construction routes; every operator result is compared term by term with an independent reference arithmetic, and the stated laws are asserted as exact equalities. Falsification power over the whole operator surface; sampled, not exhaustive.",
+          "Coefficients are Q (exact); powers -4..6, at most 6 terms, exponents 0..5; composition only where defined.", "3/C07"),
 }
 NOT_BUILT = "check not built yet in this session (planned in DESIGN.md section 3); no claim is made until it is"
 
